@@ -1601,7 +1601,7 @@ class QueryBuilder(Selectable, Term):  # type:ignore[misc]
             return querystring
 
         if self._delete_from:
-            querystring = self._delete_sql(ctx)
+            querystring = (self._with_sql(ctx) if self._with else "") + self._delete_sql(ctx)
 
         elif not self._select_into and self._insert_table:
             if self._with:
